@@ -1,0 +1,40 @@
+//! Verification hooks (only compiled with the `verif-hooks` feature).
+//!
+//! The in-memory resources enumerate files in `HashMap` order. The verification
+//! harness takes ownership of that nondeterminism: with the feature enabled the
+//! enumeration is sorted and then permuted by an index chosen by the harness.
+
+use std::cell::Cell;
+use std::path::PathBuf;
+
+thread_local! {
+    static WALK_PERMUTATION: Cell<usize> = const { Cell::new(0) };
+}
+
+/// Select which permutation (in lexicographic rank, 0 = sorted order) the in-memory
+/// file walk uses on the current thread.
+pub fn set_walk_permutation(index: usize) {
+    WALK_PERMUTATION.with(|cell| cell.set(index));
+}
+
+pub(crate) fn reorder(paths: &mut Vec<PathBuf>) {
+    paths.sort();
+    let mut index = WALK_PERMUTATION.with(|cell| cell.get());
+    if index == 0 || paths.len() < 2 {
+        return;
+    }
+    // factorial number system decoding of `index`
+    let mut pool: Vec<PathBuf> = std::mem::take(paths);
+    let n = pool.len();
+    let mut factorials = vec![1usize; n];
+    for i in 1..n {
+        factorials[i] = factorials[i - 1].saturating_mul(i);
+    }
+    index %= factorials[n - 1].saturating_mul(n);
+    for i in (0..n).rev() {
+        let f = factorials[i];
+        let k = index / f;
+        index %= f;
+        paths.push(pool.remove(k));
+    }
+}
